@@ -25,7 +25,7 @@ EXTRA = {
             'lentil/propagate.py': ['_dft_alpha', 'propagate_dft'], 'lentil/field.py': ['Field.shape', 'Field.size', 'Field.__init__', 'Field.__mul__', 'reduce', '_reduce', '_disjoint', '_merge', 'insert'],
             'lentil/fourier.py': ['dft2', '_dft2_matrices', '_dft2_coords'], 'lentil/wavefront.py': ['Wavefront.intensity', 'Wavefront.field', 'Wavefront.__mul__']},
     'C04': {'lentil/field.py': ['Field.shape', 'Field.size', 'Field.__init__', 'Field.__mul__', 'Field.shift'], 'lentil/plane.py': ['Plane.fit_tilt', 'Plane.ptt_vector', 'Tilt.shift', 'Tilt.__init__', 'TiltInterface.multiply', 'DispersiveTilt.shift']},
-    'C05': {'lentil/plane.py': ['Plane.shape', 'Plane.multiply', 'Plane.mask', 'Plane.__init__'], 'lentil/wavefront.py': ['Wavefront.__init__', 'Wavefront.field', 'Wavefront.shape', 'Wavefront.intensity'],
+    'C05': {'lentil/plane.py': ['Plane.shape', 'Plane.multiply', 'Plane.mask', 'Plane.__init__'], 'lentil/wavefront.py': ['Wavefront.__init__', 'Wavefront.field', 'Wavefront.intensity'],
             'lentil/util.py': ['normalize_power'], 'lentil/propagate.py': ['_fft2', 'propagate_fft', 'propagate_dft'], 'lentil/fourier.py': ['dft2', '_dft2_matrices']},
     'C06': {'lentil/field.py': ['Field.shape', 'Field.size', 'Field.__init__', 'Field.__mul__', 'Field._mul_scalar', 'Field._mul_array', '_mul_broadcast', 'insert', 'merge', '_merge', '_merge_shape', '_merge_slices',
                                 '_merge_offset', 'boundary', 'overlap', 'reduce', '_reduce', '_disjoint']},
@@ -35,7 +35,7 @@ EXTRA = {
     'C09': {'lentil/propagate.py': ['propagate_fft', '_fft_shape', '_fft2', 'scratch_shape', '_has_tilt'], 'lentil/util.py': ['pad']},
     'C11': {'lentil/zernike.py': ['zernike', 'R', 'zernike_index', 'zernike_coordinates'], 'lentil/util.py': ['centroid'], 'lentil/helper.py': ['mesh']},
     'C12': {'lentil/zernike.py': ['zernike_fit', 'zernike_remove', 'zernike_compose', 'zernike_basis']},
-    'C13': {'lentil/radiometry.py': ['Spectrum.__init__', 'Spectrum.__mul__', 'Spectrum.__rmul__', 'Spectrum.__add__', 'Spectrum.__sub__', 'Spectrum.__truediv__', 'Spectrum.__pow__', 'Spectrum.wave', 'Spectrum.value', 'Spectrum._ufunc', '_interp_common', '_sampling', '_intersect', 'Spectrum.sample', 'Spectrum.to', 'Spectrum.copy']},
+    'C13': {'lentil/radiometry.py': ['Spectrum.__init__', 'Spectrum.__mul__', 'Spectrum.__add__', 'Spectrum.__sub__', 'Spectrum.__truediv__', 'Spectrum.__pow__', 'Spectrum.wave', 'Spectrum.value', 'Spectrum._ufunc', '_interp_common', '_sampling', '_intersect', 'Spectrum.sample', 'Spectrum.to', 'Spectrum.copy']},
     'C14': {'lentil/radiometry.py': ['Spectrum.copy', 'Spectrum.__init__', 'Spectrum.wave', 'Spectrum.value', 'Spectrum.waveunit', 'Spectrum.valueunit', 'Blackbody.sample_vegamag', 'Unit', 'Spectrum.to', 'planck_radiance', 'planck_exitance', 'vegaflux', 'Blackbody.__init__', 'Blackbody.sample', 'Blackbody.vegamag']},
     'C15': {'lentil/radiometry.py': ['Spectrum.__init__', 'Spectrum.copy', 'Spectrum.wave', 'Spectrum.value', '_sampling', 'Spectrum.integrate', 'Spectrum.bin', 'Spectrum.crop', 'Spectrum.trim', 'Spectrum.pad', 'Spectrum.append', 'Spectrum.resample', 'Spectrum.ends', 'Spectrum.sample']},
     'C16': {'lentil/radiometry.py': ['Spectrum.sample', 'Spectrum.to', 'Spectrum.copy', 'Spectrum.wave', 'Spectrum.value', 'Angstrom.to', 'Meter.to', 'Micron.to', 'Nanometer.to'], 'lentil/detector.py': ['collect_charge', 'collect_charge_bayer', 'adc', 'qe_asarray', 'format_bayer_string']},
@@ -68,14 +68,27 @@ def normalised(fn):
             and isinstance(fn.body[0].value.value, str):
         fn.body = fn.body[1:] or [ast.Pass()]
     args = {a.arg for a in fn.args.args + fn.args.kwonlyargs + fn.args.posonlyargs}
-    if fn.name == '_module_level_': return ast.unparse(fn)
+    if fn.name == '_module_level_':
+        _drop_messages(fn); return ast.unparse(fn)
     ren = {}
     for n in _locals_of(fn):
         if n not in args: ren[n] = f'v{len(ren)}'
     for n in ast.walk(fn):
         if isinstance(n, ast.Name) and n.id in ren: n.id = ren[n.id]
-    fn.decorator_list = fn.decorator_list
+    _drop_messages(fn)
     return ast.unparse(fn)       # canonical source text (run with /venv/bin/python, as the checks are)
+
+def _drop_messages(fn):
+    """the text of an error or warning message is not behaviour any property observes (the exception *type* is): the
+    arguments of `raise X(...)` and of `warnings.warn(...)` are replaced by a placeholder"""
+    for n in ast.walk(fn):
+        if isinstance(n, ast.Raise) and isinstance(n.exc, ast.Call) and all(_is_text(a) for a in n.exc.args) and not n.exc.keywords:
+            n.exc.args = [ast.Constant('msg')] if n.exc.args else []
+        if isinstance(n, ast.Call) and ast.unparse(n.func) in ('warnings.warn', 'warn') and n.args and _is_text(n.args[0]):
+            n.args[0] = ast.Constant('msg')
+
+def _is_text(a):
+    return isinstance(a, ast.JoinedStr) or (isinstance(a, ast.Constant) and isinstance(a.value, str))
 
 def functions_in(src):
     """{qualified name: FunctionDef} for module-level functions and methods of module-level classes; the pseudo entry
@@ -111,8 +124,48 @@ def class_shapes(src):
     for node in ast.parse(src).body:
         if isinstance(node, ast.ClassDef):
             meths = sorted({m.name for m in node.body if isinstance(m, (ast.FunctionDef, ast.AsyncFunctionDef))})
-            out[node.name] = ','.join(ast.unparse(b) for b in node.bases) + ' | ' + ' '.join(meths)
+            stmts = [ast.unparse(m) for m in node.body if not isinstance(m, (ast.FunctionDef, ast.AsyncFunctionDef, ast.Pass))
+                     and not (isinstance(m, ast.Expr) and isinstance(getattr(m, 'value', None), ast.Constant))]
+            # class-level statements (`__rmul__ = __mul__`, tables, nested classes) are part of the shape
+            out[node.name] = ','.join(ast.unparse(b) for b in node.bases) + ' | ' + ' '.join(meths) + ' || ' + ' ; '.join(stmts)
     return out
+
+def _refers(repo, name, path, cls):
+    """is `name` referred to anywhere in the package other than by its own definition in class `cls` of `path`?
+    (attribute access, bare name, string constant as used by getattr, keyword argument, or a definition of the same name
+    in another class or at module level — an override or a shadowed attribute)"""
+    pkg = os.path.join(repo, 'lentil')
+    for f in sorted(os.listdir(pkg)):
+        if not f.endswith('.py'): continue
+        try: tree = ast.parse(open(os.path.join(pkg, f)).read())
+        except (OSError, SyntaxError): return True
+        own = set()
+        if os.path.join('lentil', f) == path:
+            for node in tree.body:
+                if isinstance(node, ast.ClassDef) and node.name == cls:
+                    own = {id(m) for m in node.body if isinstance(m, (ast.FunctionDef, ast.AsyncFunctionDef)) and m.name == name}
+        for n in ast.walk(tree):
+            if isinstance(n, ast.Attribute) and n.attr == name: return True
+            if isinstance(n, ast.Name) and n.id == name: return True
+            if isinstance(n, ast.Constant) and n.value == name: return True
+            if isinstance(n, ast.keyword) and n.arg == name: return True
+            if isinstance(n, (ast.FunctionDef, ast.AsyncFunctionDef, ast.ClassDef)) and n.name == name and id(n) not in own: return True
+    return False
+
+def _shape_change(repo, path, cls, old, new):
+    """'' when the change of a class's bases/method set cannot affect existing behaviour: only additions of ordinary
+    (non-dunder) methods that nothing in the package refers to.  Anything else — other bases, a removed method, a new
+    special method (operators, __getattr__, __array_ufunc__ … change behaviour implicitly), a new method that some code
+    already calls, overrides or shadows — is reported."""
+    old, ost = (old.split(' || ', 1) + [''])[:2]; new, nst = (new.split(' || ', 1) + [''])[:2]
+    if ost != nst: return 'has different class-level statements'
+    ob, om = old.split(' | ', 1); nb, nm = new.split(' | ', 1)
+    if ob != nb: return f'has different bases ({nb or "none"})'
+    om, nm = set(om.split()), set(nm.split())
+    if om - nm: return 'lost method(s) ' + ', '.join(sorted(om - nm))
+    risky = [m for m in sorted(nm - om) if (m.startswith('__') and m.endswith('__')) or _refers(repo, m, path, cls)]
+    if risky: return 'gained method(s) that existing code refers to, overrides or dispatches on: ' + ', '.join(risky)
+    return ''
 
 def _mro_classes(src, names):
     """the classes of the pinned methods plus every class deriving from them in the same file"""
@@ -154,7 +207,7 @@ def compute(repo, spec):
         out[path] = {n: (digest(fns[n]) if n in fns else None) for n in names}
         shapes = class_shapes(src)
         for c in sorted(_mro_classes(src, names)):
-            if c in shapes: out[path]['class ' + c] = hashlib.sha256(shapes[c].encode()).hexdigest()[:16]
+            if c in shapes: out[path]['class ' + c] = shapes[c]
     return out
 
 def check(prop, repo):
@@ -171,8 +224,9 @@ def check(prop, repo):
             if n.startswith('class '):
                 c = n[6:]
                 if c not in shapes: bad.append(f'{path}:{n} no longer exists')
-                elif hashlib.sha256(shapes[c].encode()).hexdigest()[:16] != h:
-                    bad.append(f'{path}:{n} has a different set of methods/bases than when the hand model was validated (new override?)')
+                elif shapes[c] != h:
+                    why = _shape_change(repo, path, c, h, shapes[c])
+                    if why: bad.append(f'{path}:{n} {why} (the hand model was validated against the former class)')
                 continue
             if n not in fns: bad.append(f'{path}:{n} no longer exists')
             elif digest(fns[n]) != h: bad.append(f'{path}:{n} differs from the version the hand model was validated against')
